@@ -19,5 +19,5 @@ for l in open('/verif/properties.jsonl'):
             f.write("\nObserved at:\n")
             for o in a.get('observe_at',[]): f.write("  %s\n"%o)
 PY
-sed "s|__WT__|$WT|g" /verif/tools/seed_prompt.txt > "$WT/PROMPT.txt"
+sed "s|__WT__|$WT|g" /verif/tools/${SEED_PROMPT:-seed_prompt.txt} > "$WT/PROMPT.txt"
 echo "$WT"
